@@ -27,9 +27,10 @@ Per future `f` (`GS`, `GC`, `GA`, `GW`):
   in flight (`inflS`, `nInfl`: between the store stage of a wake and the stage where the reference performs it);
   the LATEST value of the twin's atomic is 1 iff a store has been performed at all;
 * the `AtomicWaker`'s mutex is free except while the registering call drops the waker it has replaced.
-NOT in the relation: `wakers` ⟷ the `Arc`'s `ref_cnt` (the simulation does not need it; `Waker.refcount_balance` of
-`Props/C20.lean` has the one-step laws; and the twin's `dropWaker` does not always drop the waker it took:
-FINDING `Counter.dropWaker_drops_the_current_arc`).
+NOT in the relation: `wakers` ⟷ the `Arc`'s `ref_cnt` (the simulation does not need it; `Waker.refcount_balance`,
+`Waker.dropWaker_drops_the_waker_taken` of `Props/C20.lean` have the one-step laws.  The defect of the twin that stood
+in the way — its `dropWaker` did not always drop the waker it took, old finding
+`Counter.dropWaker_drops_the_current_arc` — is REPAIRED: `Counter.dropWaker_drops_the_waker_it_took`).
 
 WHERE THE REFERENCE STEPS.  The reference performs `wake f` in ONE step (store the flag, take the registered waker,
 notify its call, drop it); the twin in five stages with a branch point before each.  The reference step is taken at the
@@ -536,19 +537,34 @@ def execDrop : Exec :=
     sc 2 (some 2) [P, S, A, D, D] (some 14), sc 2 (some 2) [P, S, A, D, D] (some 15),
     sc 2 none [A, V, D, D, D] (some 16)]
 
-/-- **FINDING (a defect of the TWIN, met while relating `wakers` to the `Arc` counts; outside the theorem, which is
-about runs without a panic).**  The last stage of the twin's `dropWaker f` drops `(w.futs.getD f {}).arc` — the `Arc` of
-the call in progress AT THAT STAGE — and not the waker it took out of the slot one stage earlier (`wake`, `awWake`,
-`awTake` hand the waker taken over in `TCtl.taken`).  Here thread 1 takes the waker of the FIRST call, the first call
-returns (the flag is set), the SECOND call starts and returns, and thread 1 then "drops" the second call's `Arc`, whose
-count is already 0: the twin panics "Arc is already released" (iteration 30 of the exploration of this well-formed
-program).  `drop(slot.lock().take())` in Rust drops the waker taken: no panic.  This is why the relation does not
-relate `Fut.wakers` to the `ref_cnt` of the modelled `Arc`s. -/
-theorem dropWaker_drops_the_current_arc : WF4 twoCalls ∧ FreshExec execDrop ∧
-    (runIter twoCalls execDrop).term = some .arcReleased ∧
+/-- **REPAIRED (a defect of the TWIN, found while relating `wakers` to the `Arc` counts): `dropWaker` drops the
+waker it took.**  The last stage of the twin's `dropWaker f` used to drop `(w.futs.getD f {}).arc` — the `Arc` of the call
+in progress AT THAT STAGE — and not the waker it took out of the slot one stage earlier; on this path (thread 1 takes
+the waker of the FIRST call, the first call returns — the flag is set —, the SECOND call starts and returns, and
+thread 1 then drops) it "dropped" the second call's `Arc`, whose count was already 0, and the twin panicked "Arc is
+already released" (old finding `Counter.dropWaker_drops_the_current_arc`).  Now stage 1 hands the waker taken over in
+`TCtl.taken`, as `wake`, `awWake`, `awTake` do (`Waker.dropWaker_drops_the_waker_taken` in `Props/C20.lean`), like
+`drop(slot.lock().take())` in Rust: along the SAME path the run completes without a panic, thread 1's `dropWaker`
+completes (event `(1, 0, unit)`) after both calls have returned 7, the run satisfies `okIter4` (so the theorem applies:
+`dropWaker_run_is_reference_execution`), and at the end BOTH `Arc`s — the first call's, dropped last by thread 1, and
+the second call's — have `ref_cnt` 0 and are unregistered: every reference is dropped exactly once. -/
+theorem dropWaker_drops_the_waker_it_took : WF4 twoCalls ∧ FreshExec execDrop ∧
+    (runIter twoCalls execDrop).term = none ∧
     (runIter twoCalls execDrop).events.map triple =
-      [(0, 0, .unit), (0, 1, .unit), (2, 0, .unit), (0, 2, .val 7), (0, 3, .val 7)] := by
-  refine ⟨by decide +kernel, ⟨rfl, rfl⟩, by decide +kernel, by decide +kernel⟩
+      [(0, 0, .unit), (0, 1, .unit), (2, 0, .unit), (0, 2, .val 7), (0, 3, .val 7), (1, 0, .unit), (0, 4, .unit),
+        (0, 5, .unit)] ∧
+    okIter4 twoCalls execDrop = true ∧
+    ((finalW twoCalls execDrop).1.arcs.map fun a =>
+      (match (finalW twoCalls execDrop).1.exec.objs[a.obj]? with
+       | some (.arc st) => some st.refCnt
+       | _ => none, a.stdCount, a.registered)) = [(some 0, 0, false), (some 0, 0, false)] := by
+  refine ⟨by decide +kernel, ⟨rfl, rfl⟩, by decide +kernel, by decide +kernel, by decide +kernel, by decide +kernel⟩
+
+/-- … and by the theorem that run is an execution of the reference semantics -/
+theorem dropWaker_run_is_reference_execution :
+    ∃ s, SCExec2 twoCalls (SC.init twoCalls) s ∧ s.verdict = none ∧ R4 (finalW twoCalls execDrop).1 s :=
+  finalW_is_reference_execution dropWaker_drops_the_waker_it_took.1 dropWaker_drops_the_waker_it_took.2.1
+    dropWaker_drops_the_waker_it_took.2.2.2.2.1 (by decide +kernel)
 
 end Counter
 
